@@ -201,6 +201,7 @@ func runC02(c *Ctx) {
 		nClos++
 		name := load.FuncName(f)
 		const bLen uint = 0
+		const bMeas uint = 1
 		gates, auths := 0, 0
 		r := &esp.Rule{Name: "C02.R2"}
 		r.Relevant = func(*ssa.Function) bool { return false }
@@ -220,6 +221,10 @@ func runC02(c *Ctx) {
 					auths++
 					return []esp.Ev{{ID: 1, Name: "verify " + cal.Name(), ErrIdx: -1, BoolIdx: -1}}
 				}
+			case *ssa.Store:
+				if fa, ok := v.Addr.(*ssa.FieldAddr); ok && flow.IsFieldLoad(fa, verifyPkg, "SNPOptions", "Measurement") && sl.Derives(v.Val, reportMeas) {
+					return []esp.Ev{{ID: 2, Name: "SNPOptions.Measurement ← report measurement", ErrIdx: -1, BoolIdx: -1}}
+				}
 			}
 			return nil
 		}
@@ -234,12 +239,22 @@ func runC02(c *Ctx) {
 				if ph == esp.AtCall && !s.Has(bLen) {
 					return s, "R2: endorsement verification reached without the report measurement having passed the full-length check"
 				}
+				if ph == esp.AtCall && !s.Has(bMeas) {
+					return s, "R2m: endorsement verification reached on a path where the options' Measurement was not set from this report (a stale or caller-pinned value would be compared instead)"
+				}
+			case 2:
+				return s.Set(bMeas), ""
 			}
 			return s, ""
 		}
 		e := c.engine(r)
 		e.Run(f, esp.State{})
-		n := c.reportEngine(e, "R2", func(v *esp.Violation) string { return name + ":length gate" })
+		n := c.reportEngine(e, "R2", func(v *esp.Violation) string {
+			if strings.HasPrefix(v.Msg, "R2m") {
+				return name + ":measurement always set"
+			}
+			return name + ":length gate"
+		})
 		c.S.Floor("R2", "length comparisons in "+name, 1, gates)
 		c.S.Floor("R2", "verification calls in "+name, 1, auths)
 		if n == 0 {
@@ -455,6 +470,11 @@ func runC02(c *Ctx) {
 				return []esp.Ev{{ID: 0, Name: "store AnyMrTd", ErrIdx: -1, BoolIdx: -1}}
 			}
 			switch v := in.(type) {
+			case *ssa.Store:
+				if ia, ok := v.Addr.(*ssa.IndexAddr); ok && is2D(ia.X.Type()) {
+					nAppends++
+					return []esp.Ev{{ID: 1, Name: "element write to MRTD allow-list", ErrIdx: -1, BoolIdx: -1}}
+				}
 			case *ssa.Call:
 				if b, ok := v.Call.Value.(*ssa.Builtin); ok && b.Name() == "append" && is2D(v.Type()) {
 					nAppends++
@@ -480,12 +500,15 @@ func runC02(c *Ctx) {
 				if ph != esp.AtCall {
 					return s, ""
 				}
-				call := x.Instr.(*ssa.Call)
 				okSrc := false
-				for _, a := range call.Call.Args[1:] {
-					if sl.Derives(a, getMrtd) {
-						okSrc = true
+				if call, isCall := x.Instr.(*ssa.Call); isCall {
+					for _, a := range call.Call.Args[1:] {
+						if sl.Derives(a, getMrtd) {
+							okSrc = true
+						}
 					}
+				} else if st, isSt := x.Instr.(*ssa.Store); isSt {
+					okSrc = sl.Derives(st.Val, getMrtd)
 				}
 				if !okSrc {
 					return s, "R5: a value that is not an endorsed row's MRTD is appended to the allow-list"
@@ -512,7 +535,45 @@ func runC02(c *Ctx) {
 		e.Run(tp, esp.State{})
 		n := c.reportEngine(e, "R5", func(v *esp.Violation) string { return "gcetcbendorsement.TdxPolicy:" + load.FuncName(v.Fn) })
 		c.S.Floor("R5", "stores to AnyMrTd reached from TdxPolicy", 1, nStores)
-		c.S.Floor("R5", "appends to the MRTD allow-list", 1, nAppends)
+		c.S.Floor("R5", "element writes (append / indexed store) to the MRTD allow-list", 1, nAppends)
+		// indexed-store idiom: the element index must be the counter that bounds the kept prefix
+		for f := range relevant {
+			if load.RelPkg(f) != "gcetcbendorsement" {
+				continue
+			}
+			for _, b := range f.Blocks {
+				for _, in := range b.Instrs {
+					st, ok := in.(*ssa.Store)
+					if !ok {
+						continue
+					}
+					ia, ok := st.Addr.(*ssa.IndexAddr)
+					if !ok || !is2D(ia.X.Type()) {
+						continue
+					}
+					// truncations of the same base
+					var highs []ssa.Value
+					if refs := ia.X.Referrers(); refs != nil {
+						for _, r := range *refs {
+							if sli, ok := r.(*ssa.Slice); ok && sli.X == ia.X && sli.High != nil {
+								highs = append(highs, sli.High)
+							}
+						}
+					}
+					if len(highs) == 0 {
+						continue
+					}
+					idxRoot := stripAddConst(ia.Index)
+					okIdx := false
+					for _, h := range highs {
+						if stripAddConst(h) == idxRoot {
+							okIdx = true
+						}
+					}
+					c.S.Check(okIdx, "R5", load.FuncName(f)+":allow-list index", c.pos(st.Pos()), "elements are written at the counter that bounds the kept prefix", "allow-list elements are written at an index other than the counter that bounds the kept prefix: the kept prefix can contain unset (empty) entries, which go-tdx-guest treats as match-anything")
+				}
+			}
+		}
 		if n == 0 {
 			c.S.OK("R5", "gcetcbendorsement.TdxPolicy:paths", c.pos(tp.Pos()), fmt.Sprintf("held on %d configurations", e.Configs), true)
 		}
@@ -587,4 +648,26 @@ func (c *Ctx) checkForward(rule string, f *ssa.Function, dstPkg, dstType, dstFie
 		}
 	}
 	c.S.Floor(rule, dstType+" literals in "+load.FuncName(f), floor, n)
+}
+
+// stripAddConst removes "+ const" and conversions: the underlying counter value.
+func stripAddConst(v ssa.Value) ssa.Value {
+	for i := 0; i < 6; i++ {
+		switch x := v.(type) {
+		case *ssa.BinOp:
+			if x.Op == token.ADD {
+				if _, ok := x.Y.(*ssa.Const); ok {
+					v = x.X
+					continue
+				}
+			}
+			return v
+		case *ssa.Convert:
+			v = x.X
+			continue
+		default:
+			return v
+		}
+	}
+	return v
 }
